@@ -33,8 +33,8 @@ func run(c *mon.Ctx) {
 	c.Floor("contract.none_present", 500)
 	c.Floor("contract.empty_request", 200)
 	c.Floor("concurrent.calls", 5000)
-	c.Stream("concurrent-filters", c.N(3, 150), func(i int, r *gen.Rand) {
-		c.Concurrent("psi.FilterPMTPacketsToPids on packets of their own", 8, 300, r, func(q *gen.Rand) string {
+	c.Stream("concurrent-filters", c.N(8, 200), func(i int, r *gen.Rand) {
+		c.Concurrent("psi.FilterPMTPacketsToPids on packets of their own", 8, 2400, r, func(q *gen.Rand) string {
 			p := ref.GenPMT(q, 2+q.Intn(10))
 			const pmtPid = 0x1f00
 			seen := map[int]bool{}
